@@ -427,3 +427,87 @@ def k_limit_fortunes(eng, which):
         return True, "fortune rule violated: " + nat
     r = run_kernel(eng, "16.e/B/limit-%s" % which, "16.e", "every child limit", build, None, replay)
     return _finish(r, holder["ctx"]) if "ctx" in holder else r
+
+
+def k_sect1(eng):
+    """LunarSect1 strategy: the distance between birth and the governing Jie is counted in whole days and double hours (branch index of the
+    hour, (h + 1) div 2): 3 days = 1 year, 1 day = 4 months, 1 double hour = 10 days.  Hours 23 of either instant are outside the claim
+    (the strategy files 23:00 under index 11 by a rule of its own)."""
+    holder = {}
+
+    class DayOf:
+        def __init__(self, t):
+            self.t = t
+
+    class LH:
+        def __init__(self, h):
+            self.h = h
+
+    def build(eng):
+        fn = M.find_fn(eng.fns, "get_info", "&LunarSect1ChildLimitProvider")
+        ctx = _ctx(eng, {})
+        holder.update(ctx=ctx)
+        rec = Rec(ctx, "self", "LunarSect1ChildLimitProvider")
+        birth = Rec(ctx, "birth", "SolarTime")
+        term = Rec(ctx, "term", "SolarTerm")
+        tt = Rec(ctx, "term_time", "SolarTime")
+        hb, ht = ctx.fresh_value("birth_hour", "usize"), ctx.fresh_value("jie_hour", "usize")
+        db, dt = ctx.fresh_value("birth_day_number", "isize"), ctx.fresh_value("jie_day_number", "isize")
+        after = ctx.fresh_value("birth_is_after_the_jie", "bool")
+        model = ctx.model
+        base = model.call
+        hour_of = lambda x: hb if x is birth else ht
+        day_of = lambda x: db if x is birth else dt
+
+        def call(c, fr, callee, args, path):
+            a = [model.deref(c, x) for x in args]
+            if callee == "JulianDay::get_solar_time":
+                return True, tt
+            if a and a[0] in (birth, tt):
+                if callee == "SolarTime::get_hour":
+                    return True, hour_of(a[0])
+                if callee == "SolarTime::get_lunar_hour":
+                    return True, LH(hour_of(a[0]))
+                if callee == "SolarTime::get_solar_day":
+                    return True, DayOf(day_of(a[0]))
+                if callee in ("SolarTime::is_after", "SolarTime::is_before") and len(a) == 2 and a[1] in (birth, tt) and a[1] is not a[0]:
+                    # `after` = birth is after the Jie instant; the other three questions are its mirror images (ties: the instants differ)
+                    birth_first = a[0] is birth
+                    asks_after = callee.endswith("is_after")
+                    return True, (after if birth_first == asks_after else T("(not %s)" % after.s, "Bool"))
+            if callee == "LunarHour::get_index_in_day" and isinstance(a[0], LH):
+                return True, T("(div (+ %s 1) 2)" % a[0].h.s, "Int")
+            if callee == "SolarDay::subtract" and isinstance(a[0], DayOf) and isinstance(a[1], DayOf):
+                return True, T("(- %s %s)" % (a[0].t.s, a[1].t.s), "Int")
+            return base(c, fr, callee, args, path)
+        model.call = call
+        paths = ctx.run(fn, [("refrec", rec), birth, term])
+        ib, it = "(+ (* 24 %s) %s)" % (db.s, hb.s), "(+ (* 24 %s) %s)" % (dt.s, ht.s)
+        pre = ["(<= 0 %s 22)" % hb.s, "(<= 0 %s 22)" % ht.s, "(<= 1721424 %s 5373484)" % db.s, "(<= (- 32) (- %s %s) 32)" % (dt.s, db.s),
+               "(=> %s (>= %s %s))" % (after.s, ib, it), "(=> (not %s) (<= %s %s))" % (after.s, ib, it)]
+        zb, zt = "(div (+ %s 1) 2)" % hb.s, "(div (+ %s 1) 2)" % ht.s
+        tot = "(ite %s (+ (* 12 (- %s %s)) (- %s %s)) (+ (* 12 (- %s %s)) (- %s %s)))" % (after.s, db.s, dt.s, zb, zt, dt.s, db.s, zt, zb)
+
+        def shape(p):
+            nx = [c for c in p.calls if c[0] == "AbstractChildLimitProvider::next"]
+            if len(nx) != 1 or p.ret is not nx[0][2]:
+                return "result is not the computed limit"
+            if model.deref(ctx, nx[0][1][1]) is not birth:
+                return "the addition does not start from the birth instant"
+            return None
+
+        def posts(p):
+            nx = [c for c in p.calls if c[0] == "AbstractChildLimitProvider::next"][0]
+            y, mo, d, h, mi, se = [x.s for x in nx[1][2:8]]
+            return [("years", "(= %s (div %s 36))" % (y, tot)), ("months", "(= %s (mod (div %s 3) 12))" % (mo, tot)), ("days", "(= %s (* 10 (mod %s 3)))" % (d, tot)),
+                    ("no-clock-part", "(and (= %s 0) (= %s 0) (= %s 0))" % (h, mi, se))]
+        return ctx, paths, pre, posts, shape
+
+    def replay(eng, model):
+        nat = eng.native("sect1_scan")
+        if nat in ("NONE", "PANIC", "UNKNOWN", ""):
+            return nat == "PANIC", "native scan: " + (nat or "no output")
+        return True, "LunarSect1 limit: " + nat
+
+    r = run_kernel(eng, "16.b/B/ratio/LunarSect1", "16.b", "birth and Jie up to 32 days apart either way, hours 0..22 each", build, None, replay)
+    return _finish(r, holder["ctx"]) if "ctx" in holder else r
